@@ -62,6 +62,13 @@ class AbstractOnlineResetVisitor(AbstractAstVisitor):
 class AbstractOnlineUpdateVisitor(AbstractAstVisitor):
     def __init__(self):
         self.results = dict()
+        self.visited = dict()
+
+    def visitAst(self, ast, *args, **kwargs):
+        # every operator is updated at most once per update, even if its
+        # (sub-)formula occurs several times in the specification
+        self.visited = dict()
+        return super(AbstractOnlineUpdateVisitor, self).visitAst(ast, *args, **kwargs)
 
     def visitSpec(self, node, online_operator_dict, var_object_dict):
         sample_return = self.visit(node, online_operator_dict, var_object_dict)
@@ -70,18 +77,26 @@ class AbstractOnlineUpdateVisitor(AbstractAstVisitor):
         return sample_return
 
     def visitBinary(self, node, online_operator_dict, var_object_dict):
+        if node.name in self.visited:
+            self.results[node] = self.visited[node.name]
+            return self.visited[node.name]
         sample_left  = self.visit(node.children[0], online_operator_dict, var_object_dict)
         sample_right = self.visit(node.children[1], online_operator_dict, var_object_dict)
         operator = online_operator_dict[node.name]
         sample_return = operator.update(sample_left, sample_right)
         self.results[node] = sample_return
+        self.visited[node.name] = sample_return
         return sample_return
 
     def visitUnary(self, node, online_operator_dict, var_object_dict):
+        if node.name in self.visited:
+            self.results[node] = self.visited[node.name]
+            return self.visited[node.name]
         sample = self.visit(node.children[0], online_operator_dict, var_object_dict)
         op = online_operator_dict[node.name]
         sample_return = op.update(sample)
         self.results[node] = sample_return
+        self.visited[node.name] = sample_return
         return sample_return
 
     def visitLeaf(self, node, online_operator_dict, var_object_dict):
